@@ -119,6 +119,12 @@ def acceptedZero (ρ : Rep n R) (a : Aut V) (o : AccOpts) (state : Option V) : A
 def edgeElt (ρ : Rep n R) (o : AccOpts) (label : String) : M? (DMat n n R) :=
   if o.edgeWords then ρ.wordValueS label else ρ.gen label
 
+/-- `Representation._join_words(word1, word2)` (repaired code): words of a `parse_simple`
+representation are concatenated, those of a `parse_simple=False` one are joined with `"*"`
+(nothing is inserted next to an empty word) -/
+def joinW (ρ : Rep n R) (w1 w2 : String) : String :=
+  if ρ.parseSimple || w1 == "" || w2 == "" then w1 ++ w2 else w1 ++ "*" ++ w2
+
 /-- the body of `_automaton_accepted` for `length > 0`, the recursive call being `recur`
 (`recur o state memo` = `self._automaton_accepted(automaton, length - 1, state=…,
 precomputed=memo, as_start=…, maxlen=…, with_words=…, edge_words=…)`).  Repaired code: the early `return empty` for an end
@@ -143,7 +149,7 @@ def acceptedStep (ρ : Rep n R) (a : Aut V) (o : AccOpts) (length : Nat)
     (fun (acc : List (DMat n n R) × List String × Memo V n R) vl => do
       let (r, memo') ← recur o (some vl.1) acc.2.2
       let ws := if o.withWords then
-          (if o.asStart then r.words.map (vl.2 ++ ·) else r.words.map (· ++ vl.2))
+          (if o.asStart then r.words.map (ρ.joinW vl.2 ·) else r.words.map (ρ.joinW · vl.2))
         else []
       let e ← ρ.edgeElt o vl.2
       let ms := if o.asStart then r.mats.map (e.mul ·) else r.mats.map (·.mul e)
@@ -181,6 +187,36 @@ def automatonAccepted (ρ : Rep n R) (a : Aut V) (length : Nat) (maxlen withWord
   | some _, some _ => .error "ValueError"
   | _, some e => ρ.accepted a length ⟨maxlen, withWords, false, edgeWords⟩ (some e) memo
   | s, none => ρ.accepted a length ⟨maxlen, withWords, true, edgeWords⟩ s memo
+
+/-- a caller-supplied `precomputed` dict: the memo entries and (repaired code) the entry
+`"options"` = `(as_start, maxlen, with_words, edge_words)` recorded by the first call -/
+structure PreDict (V : Type) (n : ℕ) (R : Type) where
+  options : Option (Bool × Bool × Bool × Bool) := none
+  memo : Memo V n R := []
+
+/-- `Representation.automaton_accepted(..., precomputed=d)` with a caller-supplied dict
+(repaired code): after the `start_state`/`end_state` check,
+```
+options = (as_start, maxlen, with_words, edge_words)
+if precomputed.setdefault("options", options) != options: raise ValueError
+```
+The dict is mutated also when the call raises, so the new dict is returned next to the result. -/
+def automatonAcceptedD (ρ : Rep n R) (a : Aut V) (length : Nat) (maxlen withWords : Bool)
+    (startState endState : Option V) (d : PreDict V n R) (edgeWords : Bool) :
+    M? (AccRes n R) × PreDict V n R :=
+  match startState, endState with
+  | some _, some _ => (.error "ValueError", d)
+  | _, _ =>
+    let opts := (endState.isNone, maxlen, withWords, edgeWords)
+    match d.options with
+    | some o' => if o' ≠ opts then (.error "ValueError", d) else
+      match ρ.automatonAccepted a length maxlen withWords startState endState d.memo edgeWords with
+      | .ok (r, m) => (.ok r, { d with memo := m })
+      | .error e => (.error e, d)
+    | none =>
+      match ρ.automatonAccepted a length maxlen withWords startState endState d.memo edgeWords with
+      | .ok (r, m) => (.ok r, ⟨some opts, m⟩)
+      | .error e => (.error e, { d with options := some opts })
 
 /-- `Representation.freely_reduced_elements(length, maxlen, with_words)` -/
 def freelyReducedElements (ρ : Rep n R) (length : Nat) (maxlen withWords : Bool) :
